@@ -347,6 +347,9 @@ pub fn check_wont(input: &[u8], which: usize, l: &mut Local) -> CaseResult {
 }
 
 pub fn replay(case: &Json, l: &mut Local) -> CaseResult {
+    if let Some(r) = super::corpus_checks::replay_corpus(case, l) {
+        return r;
+    }
     if let Some(name) = case.get("real").and_then(|r| r.as_str()) {
         let ri = reals().iter().position(|r| r.name == name).unwrap_or(0);
         return check_alloc(ri, &input_of(case), l);
